@@ -286,6 +286,9 @@ enum LifeEnd {
     Done,
 }
 
+/// crash_pending value standing for "no downtime, wall clock stepped back 50 s" (downtimes are multiples of 5 s)
+const CLOCK_BACK_MARK: u64 = 1;
+
 static SOCK_COUNTER: std::sync::atomic::AtomicU64 = std::sync::atomic::AtomicU64::new(0);
 
 impl World {
@@ -673,7 +676,8 @@ impl World {
             return;
         }
         if let Some((_, down, lose)) = self.scn.crash_at.iter().find(|c| c.0 as u32 == self.effects) {
-            self.crash_pending = Some((if *down == 255 { 100_000 } else { 5 * *down as u64 }, *lose));
+            // 255 = very long outage; 254 = no downtime, but the wall clock was stepped back 50 s (encoded as 1 s below)
+            self.crash_pending = Some((match *down { 255 => 100_000, 254 => CLOCK_BACK_MARK, d => 5 * d as u64 }, *lose));
         }
     }
 
@@ -1101,13 +1105,15 @@ impl World {
             }
             if let Some((down_s, lose_last)) = self.crash_pending.take() {
                 self.settle().await;
-                return LifeEnd::Crash { down_s, lose_last, reverse: false, clock_back_s: 0 };
+                let (down_s, clock_back_s) = if down_s == CLOCK_BACK_MARK { (0, 50) } else { (down_s, 0) };
+                return LifeEnd::Crash { down_s, lose_last, reverse: false, clock_back_s };
             }
         }
         self.shared.lock().unwrap().push(Ev::DrainStart);
         self.drain(lt).await;
         if let Some((down_s, lose_last)) = self.crash_pending.take() {
-            return LifeEnd::Crash { down_s, lose_last, reverse: false, clock_back_s: 0 };
+            let (down_s, clock_back_s) = if down_s == CLOCK_BACK_MARK { (0, 50) } else { (down_s, 0) };
+            return LifeEnd::Crash { down_s, lose_last, reverse: false, clock_back_s };
         }
         if self.scn.probe {
             self.probe_same_lifetime(lt).await;
